@@ -122,7 +122,7 @@ pub trait Family: 'static + Sized {
     /// Can a task be cancelled (by abort) while it is in this operation?  False for operations that
     /// block synchronously inside the task's poll (nested block_on): they never return Pending to
     /// the executor, so an abort cannot take effect before they complete.
-    fn m_abortable(_op: &Self::Op) -> bool {
+    fn m_abortable(_op: &Self::Op, _phase: u8) -> bool {
         true
     }
     /// Operations recorded as having *no scheduling point in front of them* (known findings F4/F5):
@@ -869,7 +869,7 @@ fn g_steps_raw<F: Family>(p: &Program<F>, s: &GState<F>, t: usize, strict: bool)
     }
     let in_unabortable_op = {
         let pc = s.th[t].pc as usize;
-        (!F::ASYNC || s.th[t].flags & STARTED != 0) && pc < p.threads[t].len() && matches!(&p.threads[t][pc], GOp::Op(o) if !F::m_abortable(o))
+        (!F::ASYNC || s.th[t].flags & STARTED != 0) && pc < p.threads[t].len() && matches!(&p.threads[t][pc], GOp::Op(o) if !F::m_abortable(o, s.th[t].phase))
     };
     if s.th[t].flags & ABORTED != 0 && !in_unabortable_op {
         // an aborted task may be cancelled whenever it is polled next: its future is dropped and it
